@@ -624,7 +624,7 @@ impl BuildJob<'_> {
                 }
                 #[cfg(feature = "verif")]
                 crate::verif::delay("after_rename");
-            } else {
+            } else if rv == EXIT_SUCCESS {
                 // no output generated at all; that's ok
 
                 // TODO(maybe): Remove EISDIR/EPERM exception or remove directory?
